@@ -2,7 +2,7 @@
 different pool threads, as two vthreads with LINE-level preemption inside
 pool.py (DESIGN.md 5/C01 'Thread level')."""
 from vmc import vctx  # noqa: F401
-from vmc import vos, vproc, vthreading, linepoints, explore
+from vmc import vos, vproc, vthreading, linepoints, explore, vctx
 from vmc import sched as vs
 
 vproc.bind()
@@ -54,6 +54,7 @@ def make_runner(cfg):
             cache = {}
             vos.new_proc()       # pid 100 exists so kill()/getpgid work
             world.procs[100].pgid = 1
+            vproc.launcher = None
             cbs = []
             soft = 'softscan' in pair
             job = bp.ApplyResult(
@@ -98,9 +99,13 @@ def make_runner(cfg):
                 with linepoints.nopreempt():
                     observe()
 
-            fake = object.__new__(bp.Pool)
-            fake._cache, fake._pool, fake._reaped = cache, [], {}
-            fake._processes = 1
+            # a real Pool object (whatever private bookkeeping its
+            # constructor sets up) sharing the job cache, with an empty
+            # worker list: only its supervision round is used
+            fake = bp.Pool(1, context=vproc.VPoolContext(), threads=False)
+            fake._terminate.cancel()
+            fake._cache = cache
+            del fake._pool[:]
 
             def lost():
                 # the supervisor's round: the real _join_exited_workers with
@@ -150,6 +155,7 @@ def make_runner(cfg):
                 sched.linepoints = False
                 linepoints.disable()
                 bp._kill = real_kill
+                vctx.reset_billiard_globals()
             status = sched.status
             errs = [repr(t.exc) for t in sched.threads if t.exc]
             observe()
